@@ -312,6 +312,7 @@ func c02NonNilSuccs(fn *ssa.Function, isV func(ssa.Value) bool) []*ssa.BasicBloc
 // ---------------------------------------------------------------------------------------
 
 func c02(c *eng.Ctx) {
+	defer c02Escape(c)
 	c.Rule("R1", "filter order: the proxy handler chain is installed and nests, on every path of its builder, Authentication outside Impersonation outside Dispatcher, UpstreamInfo outside Authentication, ExtraRequestInfo outside UpstreamInfo, RequestInfo outside ExtraRequestInfo (each inner filter reads the context key its outer one writes: user, ExtraRequestInfo, RequestInfo); a filter wrapped the other way round runs before its input exists (e.g. impersonation authorised for no user, authenticator asked for no host)", 12)
 	c.Rule("R2", "every impersonation is authorised: in the impersonation filter the context user is replaced only after a loop over all impersonation requests in which every iteration passes Authorize(ctx of the request, attributes of that element, user = authenticated user, verb impersonate); the only way to stay in the loop is err == nil and decision == DecisionAllow; every other way out of the loop, and a malformed request, is answered by the gateway and neither forwarded nor given a new user; the new user is built only from the authorised elements", 15)
 	c.Rule("R3", "outbound impersonation headers come from the context user: WrapRequest writes only Impersonate-User/-Group/-Extra-<escaped key> with values from request.UserFrom(req.Context()) onto a clone of the request; RoundTrip sends what WrapRequest returned; addOrUpdateEndpoint stores the impersonating wrapper into the config from which both of the endpoint's transports are built", 10)
@@ -1912,4 +1913,81 @@ func c02Fixtures(c *eng.Ctx) {
 		}
 		c.Fixture("C02.sanitizer/"+name, fmt.Sprint(want[name]), fmt.Sprint(got))
 	}
+}
+
+// ---------------------------------------------------------------------------------------
+// R3e (added after seeded change C02-1): the extra-key escaper escapes '%' and has no
+// verbatim path. The upstream percent-decodes Impersonate-Extra-<key>; a key forwarded with
+// a literal "%2f" would be read as "/" — an extra key the gateway never authenticated or
+// authorised.
+func c02Escape(c *eng.Ctx) {
+	c.Rule("R3e", "extra keys are escaped injectively: the escaper's byte predicate is true for '%'; the escaper writes a byte raw only when the predicate is false for that byte; its result is built only from what it wrote (no path returns the key verbatim)", 3)
+	esc := c.MustFunc(pkgTransport, "headerKeyEscape")
+	if esc == nil {
+		return
+	}
+	// the byte predicate: the bool function of one byte called in the escaper's loop
+	var pred *ssa.Function
+	var predCalls []*ssa.Call
+	for _, ci := range eng.Calls(esc) {
+		f := eng.CalleeFn(ci)
+		call, isCall := ci.(*ssa.Call)
+		if f == nil || !isCall || f.Pkg == nil || f.Pkg.Pkg.Path() != pkgTransport || len(f.Params) != 1 {
+			continue
+		}
+		if b, ok := f.Signature.Results().At(0).Type().Underlying().(*types.Basic); ok && b.Kind() == types.Bool && eng.InLoop(call.Block()) {
+			pred = f
+			predCalls = append(predCalls, call)
+		}
+	}
+	if pred == nil {
+		c.Fail("R3e", esc, "byte predicate of the escaper", esc.Pos(), "the escaper does not consult a per-byte predicate")
+		return
+	}
+	// (a) forcing: predicate('%') is true on every path
+	in := &eng.Interp{W: c.W, Depth: 0}
+	paths, err := in.Run(pred, []eng.AV{eng.AVInt('%')})
+	ok := err == nil && len(paths) > 0
+	for _, p := range paths {
+		if p.LoopCut || p.Panicked || len(p.Ret) != 1 || !p.Ret[0].IsBool(true) {
+			ok = false
+		}
+	}
+	c.Check("R3e", pred, "'%' must be escaped", pred.Pos(), ok, "the predicate that decides which bytes are %-encoded must be true for '%' itself, otherwise \"a%2fb\" and \"a/b\" are sent as the same header name")
+	// (b) raw writes only when the predicate is false for that byte
+	rawOK, nRaw := true, 0
+	for _, ci := range eng.Calls(esc) {
+		if !eng.IsCall(ci, "(*strings.Builder).WriteByte", "(*strings.Builder).WriteRune", "(*strings.Builder).WriteString", "(*bytes.Buffer).WriteByte") {
+			continue
+		}
+		nRaw++
+		arg := eng.Args(ci)[0]
+		guarded := eng.GuardedByBool(ci, func(v ssa.Value) bool {
+			for _, pc := range predCalls {
+				if v == ssa.Value(pc) && pc.Call.Args[0] == arg {
+					return true
+				}
+			}
+			return false
+		}, false)
+		if !guarded {
+			rawOK = false
+		}
+	}
+	c.Check("R3e", esc, "raw bytes only when the predicate is false", esc.Pos(), rawOK && nRaw > 0, "a byte is copied unescaped although the predicate was not consulted for it (or said it must be escaped)")
+	// (c) no verbatim return
+	verbatim := false
+	sl := &eng.Slicer{W: c.W, Depth: 0}
+	eng.Instrs(esc, func(ins ssa.Instruction) {
+		r, isR := ins.(*ssa.Return)
+		if !isR || r.Block() == esc.Recover {
+			return
+		}
+		for _, v := range eng.ReturnResults(r) {
+			if sl.DerivesFrom(v, func(x ssa.Value) bool { return x == ssa.Value(esc.Params[0]) }) {
+				verbatim = true
+			}
+		}
+	})
+	c.Check("R3e", esc, "no verbatim path", esc.Pos(), !verbatim, "a path returns (part of) the key as it came in: any shortcut that bypasses the per-byte predicate (e.g. a \"plain token\" fast path that considers '%' plain) forwards keys the upstream decodes differently")
 }
